@@ -5,7 +5,7 @@ from __future__ import annotations
 from ..common import ERR, FAIL, PASS, run_rule
 from ..engine import Result
 from ..impl import BIG_TREES, build, mkrule, plan_graph_shards, rule_specs, shard_graphs
-from ..refmodel import rule_three_valued, spec_to_json
+from ..refmodel import rule_three_valued, spec_to_json, truncate
 from ..spaces import renamed_graph, trees
 
 ID = "C01"
@@ -47,6 +47,10 @@ def plan(tier, seed):
                    for s in plan_graph_shards("A", n_max=4, chunk=16) + plan_graph_shards("B", n_max=5, n_min=5, k=3, parts=4)]
         shards += [dict(s, implicit=True, bound=s["bound"] + " ancestors implicit")
                    for s in plan_graph_shards("A", n_max=4, chunk=16) + plan_graph_shards("B", n_max=5, n_min=5, k=3, parts=4)]
+    # level-limited architectures are evaluable architectures too: package importers (space N) flattened to every
+    # level; the rules are judged against the reference model on the quotient
+    shards += [dict(s, limited=True, bound=s["bound"] + " level-limited")
+               for s in plan_graph_shards("N", n_max=5 if tier == "quick" else 6, n_min=3, k=1 if tier == "quick" else 2, parts=2)]
     req = []
     for verb in ("should", "should_only", "should_not"):
         for exc in (False, True):
@@ -89,8 +93,35 @@ def judge(ns, I, spec, ev, seed, res: Result | None):
     return None
 
 
+def quotient(ns, I, k):
+    """Modules and imports of the architecture flattened to level k.  An import that would run from a module to its
+    own direct child coincides with the hierarchy edge and is not representable (DESIGN §8): it is left out."""
+    qn = sorted({truncate(n, k) for n in ns})
+    qi = sorted({(truncate(u, k), truncate(v, k)) for u, v in I})
+    qi = [(u, v) for u, v in qi if u != v and v.rsplit(".", 1)[0] != u]
+    return qn, qi
+
+
+def run_limited_shard(shard, seed, res):
+    for ns, I in shard_graphs(shard, seed):
+        depth = max(n.count(".") for n in ns)
+        for k in range(1, depth):
+            qn, qi = quotient(ns, I, k)
+            ev = build(ns, I, seed, level_limit=k)
+            res.states += 1
+            for spec in _specs(qn):
+                res.transitions += 1
+                res.evaluations += 1
+                v = judge(qn, qi, spec, ev, seed, res)
+                if v:
+                    res.violation(v[0], {"modules": ns, "imports": I, "level_limit": k, "rule": spec_to_json(spec), "seed": seed}, v[1], v[2])
+    return res
+
+
 def run_shard(shard, tier, seed):
     res = Result(shard["bound"])
+    if shard.get("limited"):
+        return run_limited_shard(shard, seed, res)
     for ns, I in shard_graphs(shard, seed):
         ns, I = renamed_graph(ns, I, shard.get("naming", "identity"))
         ev = build(ns, I, seed, phantom=shard.get("phantom", False), implicit=shard.get("implicit", False))
@@ -112,6 +143,9 @@ def run_shard(shard, tier, seed):
 
 def _check_case(case):
     ns, I, spec = case["modules"], [tuple(e) for e in case["imports"]], case["rule"]
+    if case.get("level_limit") is not None:
+        qn, qi = quotient(ns, I, case["level_limit"])
+        return judge(qn, qi, spec, build(ns, I, case.get("seed", 0), level_limit=case["level_limit"]), case.get("seed", 0), None)
     ev = build(ns, I, case.get("seed", 0), phantom=case.get("phantom", False), implicit=case.get("implicit", False))
     return judge(ns, I, spec, ev, case.get("seed", 0), None)
 
